@@ -889,14 +889,19 @@ func gen(c *lib.Ctx, rng *rand.Rand) []c08case {
 		cfgs := []string{"", "chunkdur_1/", "ato_1/chunkdur_0.5/", "ato_inf/chunkdur_1/", "drm_foo/", "eccp_cenc/", "eccp_cbcs/segtimeline_1/", "segtimeline_1/patch_60/",
 			"segtimelinenr_1/patch_60/", "patch_60/periods_60/", "traffic_u10/", "traffic_d10/", "statuscode_[{cycle:8,rsq:1,code:404}]/", "timesubsstpp_en/", "timesubswvtt_en/segtimeline_1/",
 			"annexI_a=b/", "scte35_2/", "start_90/stop_95/", "timeoffset_-10/", "snr_10/", "tsbd_10/mup_2/"}
+		// always: a patch request whose URL lacks patch_<ttl> (SegmentTimeline, so that publishTime moves)
+		get("patch-paths", "/patch/livesim2/segtimeline_1/testpic_2s/Manifest.mpp?publishTime=1970-01-01T00:03:20Z&nowMS=210000", "no5xx", "patch request", nil)
+		get("patch-paths", "/patch/livesim2/segtimelinenr_1/testpic_2s/Manifest.mpd?publishTime=1970-01-01T00:03:20Z&nowMS=210000", "no5xx", "patch request", nil)
 		for ci, cf := range cfgs {
 			for ti, tl := range tails {
 				if !c.Thorough() && ci > 2 && (ci+ti)%4 != 0 {
 					continue
 				}
 				for _, q := range []string{"publishTime=1970-01-01T00:03:20Z&nowMS=210000", "nowMS=210000"} {
-					exp, why := "", ""
-					if !strings.HasSuffix(tl, ".mpp") {
+					// .mpp and its alias .mpd are patch requests: any deliberate answer but a 5xx (a patch, 4xx,
+					// 410, 425); every other tail must be refused with a 4xx
+					exp, why := "no5xx", "patch request"
+					if !strings.HasSuffix(tl, ".mpp") && !strings.HasSuffix(tl, ".mpd") {
 						exp, why = "4xx", "no patch path"
 					}
 					get("patch-paths", "/patch/livesim2/"+cf+tl+"?"+q, exp, why, nil)
@@ -1238,6 +1243,11 @@ func judge(c *lib.Ctx, id string, cs c08case, o c08obs) {
 				fmt.Sprintf("%s: %s, expected a 4xx with a message, got %d %q", url, cs.Why, o.Status, firstLine(o.Body)), in)
 		} else if strings.TrimSpace(o.Body) == "" {
 			c.Fail(id, "status:4xx-without-message", fmt.Sprintf("%s: %s: %d with an empty body", url, cs.Why, o.Status), in)
+		}
+	case "no5xx":
+		if o.Status >= 500 {
+			c.Fail(id, fmt.Sprintf("status:%d-for-patch-request", o.Status),
+				fmt.Sprintf("%s: %s, expected a patch or a 4xx, got %d %q", url, cs.Why, o.Status, firstLine(o.Body)), in)
 		}
 	case "404":
 		if o.Status != 404 {
